@@ -83,6 +83,17 @@ def load_registry():
     return reg
 
 
+def property_level(reg, pid):
+    """'proof' iff some target of the property (any tier) is on an unbounded
+    (U) or complete (C) contract route; properties decided only by bounded /
+    micro-program stand-ins are reported as 'other'."""
+    pinfo = reg["properties"].get(pid, {})
+    if "level" in pinfo:
+        return pinfo["level"]
+    routes = {t.get("route") for t in reg["targets"] if pid in t["properties"]}
+    return "proof" if routes & {"U", "C", "P"} else "other"
+
+
 def load_known():
     known, fixed = [], []
     p = VERIF + "/known_findings.txt"
@@ -106,16 +117,27 @@ def _limits():
 
 
 def sh(cmd, timeout, cwd=None, env=None, limit=True):
+    """run a command in its own process group; on time-out the whole group is
+    killed (cbmc spawns the SMT solver as a child process)."""
+    import signal
     t0 = time.time()
+    p = subprocess.Popen(cmd, stdout=subprocess.PIPE, stderr=subprocess.PIPE,
+                         cwd=cwd, env=env,
+                         preexec_fn=_limits if limit else os.setsid)
     try:
-        p = subprocess.run(cmd, stdout=subprocess.PIPE, stderr=subprocess.PIPE,
-                           timeout=timeout, cwd=cwd,
-                           preexec_fn=_limits if limit else os.setsid,
-                           env=env)
-        return p.returncode, p.stdout.decode("utf-8", "replace"), \
-            p.stderr.decode("utf-8", "replace"), time.time() - t0
-    except subprocess.TimeoutExpired as e:
-        return -999, (e.stdout or b"").decode("utf-8", "replace"), \
+        out, err = p.communicate(timeout=timeout)
+        return p.returncode, out.decode("utf-8", "replace"), \
+            err.decode("utf-8", "replace"), time.time() - t0
+    except subprocess.TimeoutExpired:
+        try:
+            os.killpg(p.pid, signal.SIGKILL)
+        except OSError:
+            pass
+        try:
+            out, err = p.communicate(timeout=10)
+        except Exception:
+            out, err = b"", b""
+        return -999, out.decode("utf-8", "replace"), \
             "TIMEOUT after %ss" % timeout, time.time() - t0
 
 
@@ -481,6 +503,15 @@ def run_variant(t, tier, neg=None, keep=False):
                                 " found %d (loop contract dropped?)" %
                                 (t.get("expect_loops"), n))
         failed = [r for r in nres if r["status"] == "FAILURE"]
+        # an unwinding assertion that fails means "the bound of this run was
+        # too small", not "the property is violated": undecided unless some
+        # other obligation fails as well
+        uw = [r for r in failed if re.search(r"\.unwind\.\d+$", r["property"])]
+        if uw and len(uw) == len(failed):
+            raise Undecided("unwinding assertion %s failed: loop bound of the "
+                            "harness exceeded (%s)" % (uw[0]["property"],
+                                                       uw[0].get("description")))
+        failed = [r for r in failed if r not in uw]
         unknown = [r for r in nres if r["status"] not in ("SUCCESS", "FAILURE", "IGNORED")]
         if failed or unknown:
             bad = failed or unknown
@@ -639,8 +670,7 @@ def check_property(pid, tier):
     by_route = {}
     for t, r in zip(order, results):
         by_route.setdefault(t.get("route", "?"), []).append(t["id"])
-    proof_routes = [x for x in by_route if x in ("U", "C")]
-    level = pinfo.get("level", "proof" if proof_routes else "other")
+    level = property_level(reg, pid)
     samples = []
     for t, r in zip(order, results):
         prim = [o for o in r["obligations"] if not o["library"]]
@@ -676,7 +706,10 @@ def check_property(pid, tier):
                 "B": "bounded stand-in (bound stated per target), not counted "
                      "as proof",
                 "M": "interpreter micro-program: fixed instruction skeleton, "
-                     "all operand/input values symbolic; bounded in shape"},
+                     "all operand/input values symbolic; bounded in shape",
+                "P": "plain pre/post harness on loop-free real code over the "
+                     "full input domain: complete, but without the dfcc frame "
+                     "check (frame asserted by snapshots of named objects)"},
             bounds={t["id"]: t["bound"] for t in targets if t.get("bound")},
             obligations_by_route={
                 k: sum(len(r["obligations"]) for t, r in zip(order, results)
